@@ -658,7 +658,7 @@ within_epsilon (pixman_fixed_t a,
                 pixman_fixed_t b,
                 pixman_fixed_t epsilon)
 {
-    pixman_fixed_t t = a - b;
+    pixman_fixed_48_16_t t = (pixman_fixed_48_16_t) a - b;
 
     if (t < 0)
 	t = -t;
